@@ -35,6 +35,20 @@ inductive Op
   | size (ins : List (InKind × Nat)) (outs : List OutKind)
   | der (r s : Nat)
   | flow (est real : Nat)
+  | steps (qs : List (Option Nat)) (real : Option Nat)
+
+def parseStep (s : String) : Option Step :=
+  match s.splitOn ":" with
+  | ["q"] => some .query
+  | ["ip", n] => do pure (.addIns .pkh (← n.toNat?))
+  | ["iw", n] => do pure (.addIns .wpkh (← n.toNat?))
+  | ["is", n, r] => do pure (.addIns (.sh (← r.toNat?) false) (← n.toNat?))
+  | ["iS", n, r] => do pure (.addIns (.wsh (← r.toNat?) false) (← n.toNat?))
+  | ["op", n] => do pure (.addOuts .pkh (← n.toNat?))
+  | ["ow", n] => do pure (.addOuts .wpkh (← n.toNat?))
+  | ["os", n] => do pure (.addOuts .sh (← n.toNat?))
+  | ["oS", n] => do pure (.addOuts .wsh (← n.toNat?))
+  | _ => none
 
 def parseOptSig (s : String) : Option (Option Nat) :=
   if s = "-" then some none else s.toNat?.map some
@@ -53,6 +67,11 @@ def parseOp (line : String) : Option Op :=
     if ins.isEmpty then none else
     pure (.size ins (← (splitList outs).mapM parseOut))
   | ["der", r, s] => do pure (.der (← parseHexNat r) (← parseHexNat s))
+  | ["steps", st] => do
+    let steps ← (splitList st).mapM parseStep
+    let (qs, ins, outs) := runSteps steps [] []
+    if ins.isEmpty || qs.isEmpty then none else
+    pure (.steps qs (realSize (ins.map fun k => (k, sigPh)) outs))
   | ["txsweep", main, deps] => do
     let deps ← (splitList deps).mapM parseDep
     if deps.isEmpty then none else
@@ -75,6 +94,7 @@ def model (line : String) : String :=
     "est=" ++ showOpt (estimate (ins.map (·.1)) outs) ++ " real=" ++ showOpt (realSize ins outs)
   | some (.der r s) => s!"len={derSigLen r s}"
   | some (.flow e r) => s!"est={e} real={r}"
+  | some (.steps qs r) => "q=" ++ ",".intercalate (qs.map showOpt) ++ " real=" ++ showOpt r
   | none => "bad-op"
 
 def parseOptNat (s : String) : Option (Option Nat) :=
@@ -85,11 +105,34 @@ def monitor (op obs : String) : String :=
   | none => "FAIL bad-op"
   | some (.size ins _) =>
     match splitWs obs with
-    | [e, r] =>
+    | e :: r :: notes =>
       if e.startsWith "est=" && r.startsWith "real=" then
         match parseOptNat (e.drop 4).toString, parseOptNat (r.drop 5).toString with
         | some est, some real =>
-          if holds ins est real then "ok" else "FAIL estimate-undershoots-real-size"
+          if !holds ins est real then "FAIL estimate-undershoots-real-size"
+          else if notes.any (·.startsWith "siglen[") then
+            -- the builder emitted a signature whose length is not the one btcec.Serialize gives
+            -- (e.g. a 73-byte high-S encoding): longer than the placeholder can be
+            "FAIL signature-in-transaction-longer-than-serialize-model"
+          else if notes.isEmpty then "ok" else "FAIL vsize-recomputation-differs"
+        | _, _ => "FAIL unparsable-observation"
+      else "FAIL unparsable-observation"
+    | _ => "FAIL unparsable-observation"
+  | some (.steps _ _) =>
+    -- model independent: the LAST query describes the final shape, whose real transaction
+    -- (maximal signatures) was built and measured by the harness
+    match splitWs obs with
+    | [q, r] =>
+      if q.startsWith "q=" && r.startsWith "real=" then
+        match ((q.drop 2).toString.splitOn ",").getLast?, parseOptNat (r.drop 5).toString with
+        | some l, some real =>
+          match parseOptNat l, real with
+          | some (some e), some rv =>
+            if rv ≤ e then "ok" else "FAIL stepwise-estimate-undershoots-real-size"
+          | some none, none => "ok"
+          | some none, some _ => "FAIL estimator-error-for-buildable-transaction"
+          | some (some _), none => "ok"
+          | none, _ => "FAIL unparsable-observation"
         | _, _ => "FAIL unparsable-observation"
       else "FAIL unparsable-observation"
     | _ => "FAIL unparsable-observation"
